@@ -7,7 +7,7 @@ import glob, json, os, re, shutil, sys
 OUT = "/tmp/mut/out"
 DST = "/verif/seeded"
 conf = {}
-for f in sorted(glob.glob("/tmp/mut/triage/confirm-all*.txt")) + ["/tmp/mut/triage/confirm-first.txt"] + sorted(glob.glob("/tmp/mut/triage/confirm-r2*.txt")):
+for f in sorted(glob.glob("/tmp/mut/triage/confirm-all*.txt")) + ["/tmp/mut/triage/confirm-first.txt"] + sorted(glob.glob("/tmp/mut/triage/confirm-r[0-9]*.txt")):
     if not os.path.exists(f):
         continue
     for line in open(f):
